@@ -450,6 +450,12 @@ package app
 //@   ensures app-cancelled: cancelled(cancelOf(p.cancelAppFn))
 //@   ensures nolocks: noLocks()
 //@   sets shutdownCalls() := shutdownCalls() + 1
+//@   after slices.Reverse assert reversed-nn: forall i int {shutdownOrder[i]} :: 0 <= i && i < len(shutdownOrder) ==> shutdownOrder[i] != nil
+//@   after slices.Reverse assert reversed-a: forall i int {shutdownOrder[i]} :: 0 <= i && i < len(shutdownOrder) ==> shutdownOrder[i].procConf != nil && shutdownOrder[i].procState != nil && shutdownOrder[i].logBuffer != nil
+//@   after slices.Reverse assert reversed-b: forall i int {shutdownOrder[i]} :: 0 <= i && i < len(shutdownOrder) ==> cancelOf(shutdownOrder[i].runCancelFn) == shutdownOrder[i].procRunCtx && cancelOf(shutdownOrder[i].readyCancelFn) == shutdownOrder[i].procReadyCtx && cancelOf(shutdownOrder[i].readyLogCancelFn) == shutdownOrder[i].procLogReadyCtx
+//@   after slices.Reverse assert reversed-c: forall i int {shutdownOrder[i]} :: 0 <= i && i < len(shutdownOrder) ==> closeOnly(shutdownOrder[i].procStartedChan) && ctxSeq(shutdownOrder[i].procRunCtx) < ctxCount() && ctxSeq(shutdownOrder[i].procReadyCtx) < ctxCount() && ctxSeq(shutdownOrder[i].procLogReadyCtx) < ctxCount()
+//@   after slices.Reverse assert reversed-d: forall i int {shutdownOrder[i]} :: 0 <= i && i < len(shutdownOrder) ==> shutdownOrder[i].procRunCtx != shutdownOrder[i].procReadyCtx && shutdownOrder[i].procRunCtx != shutdownOrder[i].procLogReadyCtx && shutdownOrder[i].procReadyCtx != shutdownOrder[i].procLogReadyCtx
+//@   after slices.Reverse assert reversed-wf: listWF(shutdownOrder)
 //@   loop 1 invariant noLocks1: forall m ref :: m != addr(p.runProcMutex) ==> !held(m)
 //@   loop 1 invariant held(p.runProcMutex) && runnerWF(p)
 //@   loop 1 invariant forall k string :: seen(k) && k in p.runningProcesses ==> inOrder(shutdownOrder, p.runningProcesses[k])
@@ -468,6 +474,7 @@ package app
 //@ func (p *ProjectRunner) shutDownAndWait
 //@   requires locks: held(p.runProcMutex) && (forall m ref :: m != addr(p.runProcMutex) ==> !held(m))
 //@   requires wf: listWF(shutdownOrder)
+//@   requires runnerwf: runnerWF(p)
 //@   ensures stop-requested: !p.isOrderedShutDown ==> (forall i int :: 0 <= i && i < len(shutdownOrder) ==> cancelled(shutdownOrder[i].procRunCtx))
 //@   ensures flags-kept: monotone("abool")
 //@   ensures locks: held(p.runProcMutex) && (forall m ref :: m != addr(p.runProcMutex) ==> !held(m))
@@ -538,6 +545,21 @@ package app
 //@    p.runningProcesses[k].procConf.ReplicaName in rev &&
 //@    proc.procConf.ReplicaName in rev[p.runningProcesses[k].procConf.ReplicaName] &&
 //@    rev[p.runningProcesses[k].procConf.ReplicaName][proc.procConf.ReplicaName] == proc
+
+// ordered shutdown: one stopper goroutine is spawned for every listed process
+//@ func (p *ProjectRunner) shutDownInOrder
+//@   requires listWF(shutdownOrder) && runnerWF(p)
+//@   ensures one-stopper-each: spawned(fntag("(*app.ProjectRunner).shutDownInOrder$1")) == old(spawned(fntag("(*app.ProjectRunner).shutDownInOrder$1"))) + len(shutdownOrder)
+//@   loop 1 invariant idx >= -1 && idx < len(shutdownOrder)
+//@   loop 1 invariant spawned(fntag("(*app.ProjectRunner).shutDownInOrder$1")) == old(spawned(fntag("(*app.ProjectRunner).shutDownInOrder$1"))) + idx + 1
+// ordered shutdown: the goroutine spawned per process requests its stop (after the waiters on its running dependents
+// have been joined) and, unless the stop failed, returns only after the process is done
+//@ func (p *ProjectRunner) shutDownInOrder$1
+//@   requires proc != nil && procWF(proc)
+//@   requires nolocks: noLocks()
+//@   ensures stop-requested: cancelled(proc.procRunCtx)
+//@   ensures flags-kept: monotone("abool")
+//@   loop 1 invariant procWF(proc) && monotone("abool") && noLocks()
 
 // the waiter spawned per dependent returns only after that dependent is done
 //@ func (p *ProjectRunner) shutDownInOrder$1$1
